@@ -57,6 +57,7 @@ class HTTP11Connection(ConnectionInterface):
         self._state = HTTPConnectionState.NEW
         self._state_lock = Lock()
         self._request_count = 0
+        self._server_disconnected = False
         self._h11_state = h11.Connection(
             our_role=h11.CLIENT,
             max_incomplete_event_size=self.MAX_INCOMPLETE_EVENT_SIZE,
@@ -231,6 +232,11 @@ class HTTP11Connection(ConnectionInterface):
                     msg = "Server disconnected without sending a response."
                     raise RemoteProtocolError(msg)
 
+                if data == b"":
+                    # The server has closed its side, e.g. to end a close-delimited
+                    # response body: the connection must not be kept for reuse.
+                    self._server_disconnected = True
+
                 self._h11_state.receive_data(data)
             else:
                 # mypy fails to narrow the type in the above if statement above
@@ -241,6 +247,7 @@ class HTTP11Connection(ConnectionInterface):
             if (
                 self._h11_state.our_state is h11.DONE
                 and self._h11_state.their_state is h11.DONE
+                and not self._server_disconnected
             ):
                 self._state = HTTPConnectionState.IDLE
                 self._h11_state.start_next_cycle()
